@@ -355,8 +355,6 @@ def c09_cases(st, tier, seed):
                     pts.add(x)
     pts = sorted(pts)
     rnd = random.Random(seed)
-    if tier == 'quick':
-        pts = rnd.sample(pts, min(len(pts), 700))
     out = []
     for x in pts:
         for f in (['d', 'D', 's', 'S', 'w', 'W'] if tier != 'quick' else [rnd.choice(['d', 'D', 's', 'S', 'w', 'W']), rnd.choice(['d', 'w', 's'])]):
@@ -520,9 +518,7 @@ def run_property(pid, tier, seed):
                 os.remove(os.path.join(REPLAYS, fn))
     st = coqbuild.prepare()
     broken = []
-    for name, s in st['translator'].items():
-        if s.startswith('ERROR'):
-            broken.append('translator: %s: %s' % (name, s))
+    terrs = ['translator: %s: %s' % (name, s_) for name, s_ in st['translator'].items() if s_.startswith('ERROR')]
     for rel, why in st['audit']:
         broken.append('audit: %s %s' % (rel, why))
     names, built, thm = theorem_status(pid, spec, st)
@@ -530,6 +526,7 @@ def run_property(pid, tier, seed):
         log = st.get('make_log', '')
         m = re.search(r'File "\./theories/[^"]*", line \d+.*?\n(?:.*\n){0,6}', log)
         broken.append('proof obligations of theories/Props/%s do not check (make failed)%s' % (spec['theorems'][0], ': ' + m.group(0)[:600] if m else ''))
+        broken.extend(terrs)     # a source shape the translator no longer recognises is a broken tie for the files that depend on it
     for n in names:
         if built and not thm[n]['ok']:
             broken.append('theorem %s depends on: %s' % (n, thm[n]['assumptions']))
